@@ -270,6 +270,10 @@ def size(v):
             return ite(v[1], size(v[2]), size(v[3]))
         if k == 'vpsum':
             return sub(v[3], v[2])
+        if k in ('vscatter', 'vaccum', 'allreduce'):
+            return size(v[1])
+        if k == 'alg' and len(v) > 3:
+            return size(v[3])
     return ('size', v)
 
 
